@@ -525,14 +525,16 @@ pub fn run(tier: Tier, replay: Option<&str>) {
         states.fetch_add(n, Ordering::Relaxed);
     });
 
-    // (b2) every total length up to 255 for the data MHDRs, as is and re-MICed under the key and counter the
+    // (b2) every total length up to 300 (and some beyond) for the data MHDRs, as is and re-MICed under the key and counter the
     // accessors are driven with (so the code behind a successful MIC check is reached for every layout,
     // including ones no builder produces: FPort 0 together with FOpts, FRMPayload of 241/242 bytes, ...)
     let mhdrs = [0x40u8, 0x60, 0x80, 0xA0, 0xE0];
     let grid2: Vec<(u8, u32)> = mhdrs.iter().flat_map(|m| (0..=255u32).map(move |f| (*m, f))).collect();
     grid2.par_iter().for_each(|&(mhdr, fctrl)| {
         let mut n = 0u64;
-        for len in 6..=255usize {
+        // (no radio delivers more than 255 bytes, but the parsers take any slice: lengths beyond it up to 300, and
+        // around 512 / 1024 where an offset kept in 8 or 9 bits would wrap)
+        for len in (6..=300usize).chain([511, 512, 513, 520, 767, 768, 1023, 1024, 1040]) {
             for fk in 0..3u8 {
                 let mut d = filler(fk, len);
                 d[0] = mhdr;
@@ -620,7 +622,7 @@ pub fn run(tier: Tier, replay: Option<&str>) {
         "samples": samples,
         "evaluations": ctx.evals(),
         "distinct_nontrivial": states.load(Ordering::Relaxed),
-        "rule": "states = byte strings executed on the real parsers: (a) the complete append-a-byte tree to depth 3 for the frame parsers and depth 2 (quick) / 3 (thorough) for each of the six MAC command sets; (b) MHDR(256) x FCtrl(256) x total length 0..=40 x 3 fillers; (b2) data MHDRs(5) x FCtrl(256) x total length 6..=255 x 3 fillers, as is and with a MIC that verifies; (c) every CID 0..=255 x every truncation point 0..=max_len+2 x 3 fillers, alone, preceded by and followed by every defined command of the set; (d) variable-length commands with every status byte / every length. transitions = append-a-byte edges of the tree part",
+        "rule": "states = byte strings executed on the real parsers: (a) the complete append-a-byte tree to depth 3 for the frame parsers and depth 2 (quick) / 3 (thorough) for each of the six MAC command sets; (b) MHDR(256) x FCtrl(256) x total length 0..=40 x 3 fillers; (b2) data MHDRs(5) x FCtrl(256) x total length 6..=300 and 511..513, 520, 767, 768, 1023, 1024, 1040 x 3 fillers, as is and with a MIC that verifies; (c) every CID 0..=255 x every truncation point 0..=max_len+2 x 3 fillers, alone, preceded by and followed by every defined command of the set; (d) variable-length commands with every status byte / every length. transitions = append-a-byte edges of the tree part",
         "tree_depth_frames": depth_frame,
         "tree_depth_command_sets": depth_sets,
         "exhaustive": true,
